@@ -248,8 +248,13 @@ pub fn judge(case: &Case, acc: &mut Acc) {
                 match real::from_raw_typed(k, &raw) {
                     Ok(t) => {
                         let _ = t.display();
-                        let _ = t.as_write().to_raw().to_bytes();
-                        let _ = real::typed_fields(&t, 5);
+                        // (a value decoded from more than 65 535 bytes has no encoding: serialising it again is
+                        // not an operation the property speaks about)
+                        // (typed_fields reads UNKNOWN-ATTRIBUTES through to_raw, there is no other getter)
+                        if buf.len() <= 65_535 {
+                            let _ = t.as_write().to_raw().to_bytes();
+                            let _ = real::typed_fields(&t, 5);
+                        }
                         true
                     }
                     Err(_) => false,
@@ -280,7 +285,9 @@ pub fn judge(case: &Case, acc: &mut Acc) {
                 probe!(acc, case, &format!("from_raw::<{}>+subscriber", k.name()), {
                     if let Ok(t) = real::from_raw_typed(k, &raw) {
                         let _ = t.display();
-                        let _ = t.as_write().to_raw().to_bytes();
+                        if buf.len() <= 65_535 {
+                            let _ = t.as_write().to_raw().to_bytes();
+                        }
                     }
                 });
                 probe!(acc, case, "Display(RawAttribute)+subscriber", {
@@ -569,6 +576,25 @@ pub fn run(ctx: &Ctx) -> Report {
             acc
         })
         .reduce(Acc::default, |a, b| a.merge(b));
+    // (d2) raw attributes built around values longer than 65 535 bytes (RawAttribute::new takes any slice; the
+    // 16-bit length it reports is then the length modulo 65 536): every typed decoder and Display on lengths
+    // that are congruent to each decoder's own sizes (seed C01-o: a range check that read the 16-bit length)
+    let acc_d2 = ALL_KINDS
+        .par_iter()
+        .map(|k| {
+            let mut acc = Acc::default();
+            let mut lens: Vec<usize> = vec![65_535, 65_536, 65_537, 131_072 + 4, 131_072 + 20];
+            for s in [1usize, 2, 3, 4, 5, 8, 12, 16, 20, 24, 28, 32, 33, 36, 513, 763] {
+                lens.push(65_536 + s);
+            }
+            for n in lens {
+                for fill in [0u8, b'a'] {
+                    judge_w(&Case::new("typed", vec![fill; n]).args(&[k.code() as i64]).text(&[k.name()]), &mut acc);
+                }
+            }
+            acc
+        })
+        .reduce(Acc::default, |a, b| a.merge(b));
     // (e) large inputs
     let acc_e = large_family(ctx)
         .into_par_iter()
@@ -580,7 +606,7 @@ pub fn run(ctx: &Ctx) -> Report {
             acc
         })
         .reduce(Acc::default, |a, b| a.merge(b));
-    let mut acc = acc_a.merge(acc_b).merge(acc_b2).merge(acc_c).merge(acc_d0).merge(acc_d).merge(acc_e);
+    let mut acc = acc_a.merge(acc_b).merge(acc_b2).merge(acc_c).merge(acc_d0).merge(acc_d).merge(acc_d2).merge(acc_e);
     // (g) the parser family (parse, iterate, validate, typed extraction, Display / Debug, policing of sealed,
     // corrupted, truncated and foreign buffers) under per-call-site tracing filters (callsites.rs)
     crate::teardown::callsite_sweep(P, "parser", &mut acc);
